@@ -114,8 +114,9 @@ ValidZoom(src, H, W, U, H2, W2, b) ==
 (* The same things formulated the way the implementation builds them (array_2d_util.resized_array_2d_from,   *)
 (* Mask2D.zoom_region).  Layer 3 states that both formulations agree.                                         *)
 
-\* "the central pixel is pixel n div 2 (for even n the top-left pixel of the central quadrant ... of the lower-right
-\* one, as coded); it lands on pixel m div 2 of the output"
+\* The code takes pixel n div 2 as the centre of an axis of n entries (for even n that is the second of the two
+\* central entries; the docstring speaks of the first -- both are "centred", so the difference is not a C14 matter)
+\* and lets it land on entry m div 2 of the output: the window is [n div 2 - m div 2, n div 2 + m div 2 + 1).
 CodeMin(n, m) == n \div 2 - m \div 2
 CodeMax(n, m) == n \div 2 + m \div 2 + 1            \* exclusive; the loop runs over m or m+1 indices
 CodeResizeSrc(H, W, U, H2, W2) ==
